@@ -193,8 +193,13 @@ class Machine:
             else: off = z3.Concat(bv(parts[0], 1), bv(parts[1], 1), bv(parts[2], 6), bv(parts[3], 4), z3.BitVecVal(0, 1))
             a, b = s.rx(rs1), s.rx(rs2)
             if isinstance(a, Ptr) or isinstance(b, Ptr): raise Fault('branch comparing a pointer')
-            if f3 == 0: c = b1(bv(a, 64) == bv(b, 64)); nm = 'beq'
-            elif f3 == 1: c = b1(bv(a, 64) != bv(b, 64)); nm = 'bne'
+            A_, B_ = bv(a, 64), bv(b, 64)
+            if f3 == 0: c = b1(A_ == B_); nm = 'beq'
+            elif f3 == 1: c = b1(A_ != B_); nm = 'bne'
+            elif f3 == 4: c = b1(A_ < B_); nm = 'blt'
+            elif f3 == 5: c = b1(A_ >= B_); nm = 'bge'
+            elif f3 == 6: c = b1(z3.ULT(A_, B_)); nm = 'bltu'
+            elif f3 == 7: c = b1(z3.UGE(A_, B_)); nm = 'bgeu'
             else: raise Undecodable('BRANCH funct3 %d' % f3)
             tgt = pc0 + off if is_c(off) else ('sym', pc0, off)
             if rs2 == 0: dis('%sz %s, %s' % (nm, XN[rs1], ('%#x' % tgt) if is_c(off) else '?'))
